@@ -468,8 +468,10 @@ def run_check(prop, argv):
         return p
 
     out_lines = []
-    for k, c in knowns.items():
-        out_lines.append('KNOWN-FINDING: property=%s %s %s' % (pid, k, listed[k].get('what', '')))
+    # one line per LISTED finding (whether or not this run's cases happened to witness it)
+    for k in sorted(listed):
+        out_lines.append('KNOWN-FINDING: property=%s %s %s%s' % (pid, k, listed[k].get('what', ''),
+                                                               '' if k in knowns else ' [not witnessed by this run\'s cases]'))
     if viols:
         viols.sort(key=lambda t: len(t[0].line))
         c, i, m, v, profile = viols[0]
